@@ -5,15 +5,15 @@ CONSTANTS
   FutureSlots = 3
   Spread = 120
   NShards = 2
-  Metrics <- BMetrics
+  Metrics <- LMetrics
   TimingShard = 1
   T0 <- B0
-  Lags0 = {2, 5, 6, 125}
+  Lags0 = {5, 6, 7, 8, 9}
   Fulls0 = {FALSE, TRUE}
-  Ticks <- BTicks
-  TsOffs <- BOffs
-  Kinds = {"metric", "api"}
-  SpreadOf <- EdgeSpread
+  Ticks = {0, 1}
+  TsOffs <- LOffs
+  Kinds = {"metric"}
+  SpreadOf <- LastSpread
   Variant = "code"
   MaxOps = 6
   MaxEvents = 2
